@@ -185,6 +185,9 @@ def build(case):
             bio = io.BytesIO()
             np.save(bio, np.sort(spec.spike_samples).astype(np.float64) / spec.sample_rate)
             spec.extra_files['spike_times_reordered.npy'] = bio.getvalue()
+    if spec.wmi_file is not None and case['seed'][2] % 3 == 1:
+        # the shipped inverse is not the plain inverse (a regularised one, stored in single precision): it is the file that counts
+        spec.wmi_file = (spec.wmi_file + 0.01 * np.eye(spec.wmi_file.shape[0])).astype(np.float32)
     return spec, o
 
 
@@ -217,6 +220,9 @@ def run_case(case, ctx):
     cwd0 = os.getcwd()
     try:
         params = spec.write(d)
+        wmi_p = os.path.join(d, 'whitening_mat_inv.npy')
+        if os.path.exists(wmi_p) and case['seed'][2] % 3 == 1:
+            os.utime(wmi_p, (1.0e9, 1.0e9))          # the shipped inverse is older than every other file of the dataset
         if form == 3:                       # through a symlink to the dataset directory
             os.symlink(d, os.path.join(d0, 'link'))
             params = os.path.join(d0, 'link', 'params.py')
